@@ -72,7 +72,11 @@ struct Target {
     psmap: Vec<(String, Vec<String>, String)>,    // statement text -> (variables, term : res (new values))
     loopfuel: Option<String>,                     // fuel of a `loop { .. break .. }` (term over the state at loop entry)
     restype: Option<String>,                      // the outcome type of the function (default `res`)
-    recfuel: Option<String>,                      // recursive function: Fixpoint on a fuel parameter; panic site when it runs out
+    recfuel: Option<String>,
+    places: Vec<(String, String, String, String)>, // expression text that denotes a mutable place inside a variable: (text, variable, getter term, setter term with $v)
+    fldset: HashMap<String, String>,              // field name -> record update template ($0 record, $1 new value)
+    unwrap_fn: String,                            // the function that turns an error value into a panic (default unwrap_p)
+    explode: Vec<String>,                         // struct types whose literal, bound by `let`, becomes one variable per field                      // recursive function: Fixpoint on a fuel parameter; panic site when it runs out
 }
 
 struct Tr<'a> {
@@ -86,9 +90,65 @@ struct Tr<'a> {
     self_ty: Option<String>,      // the impl type of the target
     mode_override: Vec<String>,   // return mode of the helper being inlined
     inline_depth: usize,
+    expect_ty: Option<String>,    // the type the expression being translated must have (let x: T = .. / x.f = ..): `$T` in templates
+    exploded: HashMap<String, (String, Vec<String>)>, // let x = S { f: .. } of an exploded struct type: x -> (S, fields)
+    place_alias: HashMap<String, usize>,  // let x = <place expression>: x names that place
+    field_types: HashMap<String, String>, // field name -> declared type, from the structs of the target's file
 }
 
 type R<T> = Result<T, String>;
+
+// x.unwrap() / x.expect(..) / x.unwrap_or_else(|_| panic!(..)): an error value becomes a panic
+fn is_unwrap(m: &syn::ExprMethodCall) -> bool {
+    if m.method == "unwrap" || m.method == "expect" {
+        return true;
+    }
+    if m.method == "unwrap_or_else" && m.args.len() == 1 {
+        if let Expr::Closure(c) = &m.args[0] {
+            let body = match &*c.body {
+                Expr::Block(b) if b.block.stmts.len() == 1 => match &b.block.stmts[0] {
+                    Stmt::Expr(e, _) => e.clone(),
+                    Stmt::Macro(sm) => Expr::Macro(syn::ExprMacro { attrs: Vec::new(), mac: sm.mac.clone() }),
+                    _ => return false,
+                },
+                other => other.clone(),
+            };
+            if let Expr::Macro(mc) = body {
+                return toks(&mc.mac.path) == "panic";
+            }
+        }
+    }
+    false
+}
+
+// field name -> declared type over all structs of a file (a name declared with two different types is left out)
+fn struct_field_types(file: &syn::File) -> HashMap<String, String> {
+    let mut out: HashMap<String, String> = HashMap::new();
+    let mut clash: Vec<String> = Vec::new();
+    for it in &file.items {
+        if let syn::Item::Struct(st) = it {
+            for f in &st.fields {
+                if let Some(id) = &f.ident {
+                    let ty = toks(&f.ty);
+                    match out.get(&id.to_string()) {
+                        Some(t) if *t != ty => clash.push(id.to_string()),
+                        _ => { out.insert(id.to_string(), ty); }
+                    }
+                }
+            }
+        }
+    }
+    for c in clash {
+        out.remove(&c);
+    }
+    out
+}
+
+// a Rust type as part of a Coq identifier (u16, usize, KmsProtection, String ...)
+fn type_ident(t: &str) -> String {
+    t.chars().filter(|c| c.is_alphanumeric() || *c == '_').collect()
+}
+
 
 // what follows the statements being translated
 #[derive(Clone)]
@@ -134,6 +194,36 @@ impl<'a> Tr<'a> {
         Err(format!("assignment to unknown variable {}", v))
     }
 
+    // `<place>.field` or `<alias>.field` on the left of an assignment: (index of the place, field)
+    fn place_of(&self, left: &Expr) -> Option<(usize, String)> {
+        if let Expr::Field(f) = left {
+            let base = toks(&*f.base);
+            if let Some(i) = self.t.places.iter().position(|p| p.0 == base) {
+                return Some((i, toks(&f.member)));
+            }
+            if let Some(i) = self.place_alias.get(&base) {
+                if self.lookup(&base).is_none() {
+                    return Some((*i, toks(&f.member)));
+                }
+            }
+        }
+        None
+    }
+
+    // <place>.member := newval(current value of the member): the variable holding the place is rebuilt
+    fn place_update<F: Fn(&str) -> String>(&mut self, pi: usize, member: &str, newval: F, rest: &[Stmt], k: &K) -> R<String> {
+        let (_, var, getter, setter) = self.t.places[pi].clone();
+        let cur = format!("({})", self.subst_vars(&getter));
+        let (ftmpl, _) = self.t.fields.get(member).cloned().ok_or(format!("field .{} of a place", member))?;
+        let fset = self.t.fldset.get(member).cloned().ok_or(format!("fldset for .{}", member))?;
+        let curf = format!("({})", Self::subst(&ftmpl, &[cur.clone()]));
+        let newrec = format!("({})", Self::subst(&fset, &[cur, newval(&curf)]));
+        let term = self.subst_vars(&setter).replace("$v", &newrec);
+        let c = self.rebind(&var)?;
+        let restc = self.seq(rest, k)?;
+        Ok(format!("let {} := {} in\n{}", c, term, restc))
+    }
+
     fn wrap_binds(binds: Vec<(String, String)>, body: String) -> String {
         let mut out = body;
         for (n, r) in binds.into_iter().rev() {
@@ -148,6 +238,19 @@ impl<'a> Tr<'a> {
             s = s.replace(&format!("${}", i), a);
         }
         s
+    }
+
+    // template substitution with the expected type: `$T` is the type the context asks of the expression
+    fn subst_t(&self, tmpl: &str, args: &[String], ty: &Option<String>) -> R<String> {
+        let s = Self::subst(tmpl, args);
+        if s.contains("$T") {
+            match ty {
+                Some(t) => Ok(s.replace("$T", &type_ident(t))),
+                None => Err(format!("the template `{}` needs the expected type, which the context does not give", tmpl)),
+            }
+        } else {
+            Ok(s)
+        }
     }
 
     // ---- expressions: returns (pre-bindings of partial sub-expressions, pure term, kind)
@@ -188,6 +291,34 @@ impl<'a> Tr<'a> {
                 }
                 if let Some(c) = self.t.ctor.get(&name) {
                     return Ok((c.clone(), Kind::Other));
+                }
+                if name == "None" {
+                    return Ok(("None".to_string(), Kind::Other));
+                }
+                // a constant of the target's own file whose value is a literal: the literal itself
+                if let Some(file) = self.file {
+                    for it in &file.items {
+                        if let syn::Item::Const(c) = it {
+                            if c.ident == name.as_str() {
+                                if let Expr::Lit(l) = &*c.expr {
+                                    match &l.lit {
+                                        Lit::Str(st) => return Ok((byte_list(st.value().as_bytes()), Kind::Bytes)),
+                                        Lit::Int(i) => return Ok((i.base10_digits().to_string(), Kind::Num)),
+                                        _ => {}
+                                    }
+                                }
+                            }
+                        }
+                    }
+                }
+                if let Some((ty, fields)) = self.exploded.get(&name).cloned() {
+                    // the struct as a whole: rebuilt from the current versions of its fields
+                    let ctor = self.t.ctor.get(&ty).cloned().ok_or(format!("struct {}", ty))?;
+                    let mut parts = Vec::new();
+                    for f in &fields {
+                        parts.push(self.lookup(&format!("{}.{}", name, f)).ok_or(format!("field {}.{}", name, f))?.0);
+                    }
+                    return Ok((format!("({} {})", ctor, parts.join(" ")), Kind::Other));
                 }
                 Err(format!("unknown name {}", name))
             }
@@ -390,11 +521,11 @@ impl<'a> Tr<'a> {
                 }
                 Ok((if parts.is_empty() { "true".to_string() } else { format!("({})", parts.join(" && ")) }, Kind::Other))
             }
-            Expr::MethodCall(m) if (m.method == "unwrap" || m.method == "expect") && self.is_fallible(&m.receiver) => {
+            Expr::MethodCall(m) if is_unwrap(m) && self.is_fallible(&m.receiver) => {
                 // Result::unwrap / expect on a fallible call: the error becomes a panic
                 let inner = self.res_expr(&m.receiver, binds)?;
                 let n = self.fresh("u");
-                binds.push((n.clone(), format!("unwrap_p {} ({})", self.t.panic_site, inner)));
+                binds.push((n.clone(), format!("{} {} ({})", self.t.unwrap_fn, self.t.panic_site, inner)));
                 Ok((n, Kind::Other))
             }
             Expr::MethodCall(m) => {
@@ -415,11 +546,13 @@ impl<'a> Tr<'a> {
                         return Err(format!("method {} in {}", key, text));
                     }
                 };
+                let ty = self.expect_ty.take();
                 let mut args = vec![self.expr(&m.receiver, binds)?.0];
                 for a in &m.args {
                     args.push(self.expr(a, binds)?.0);
                 }
-                let s = Self::subst(&tmpl, &args);
+                let s = self.subst_t(&tmpl, &args, &ty)?;
+                self.expect_ty = ty;
                 if partial {
                     let n = self.fresh("m");
                     binds.push((n.clone(), s));
@@ -427,6 +560,10 @@ impl<'a> Tr<'a> {
                 } else {
                     Ok((format!("({})", s), kind))
                 }
+            }
+            Expr::Call(c) if toks(&c.func) == "Some" && c.args.len() == 1 => {
+                let (v, _) = self.expr(&c.args[0], binds)?;
+                Ok((format!("(Some {})", v), Kind::Other))
             }
             Expr::Call(c) => {
                 let key = format!("{}/{}", toks(&c.func), c.args.len());
@@ -446,11 +583,13 @@ impl<'a> Tr<'a> {
                         return Err(format!("call {} in {}", key, text));
                     }
                 };
+                let ty = self.expect_ty.take();
                 let mut args = vec![String::new()];
                 for a in &c.args {
                     args.push(self.expr(a, binds)?.0);
                 }
-                let s = Self::subst(&tmpl, &args);
+                let s = self.subst_t(&tmpl, &args, &ty)?;
+                self.expect_ty = ty;
                 if partial {
                     let n = self.fresh("c");
                     binds.push((n.clone(), s));
@@ -538,6 +677,7 @@ impl<'a> Tr<'a> {
                 let key = format!("{}/{}", toks(&c.func), c.args.len());
                 matches!(self.t.call.get(&key), Some((_, _, true)))
             }
+            Expr::MethodCall(m) if m.method == "map_err" && m.args.len() == 1 && matches!(&m.args[0], Expr::Closure(_)) => self.is_fallible(&m.receiver),
             Expr::MethodCall(m) => {
                 let key = format!("{}/{}", m.method, m.args.len());
                 matches!(self.t.method.get(&key), Some((_, _, true))) && m.method != "unwrap"
@@ -574,14 +714,38 @@ impl<'a> Tr<'a> {
         }
         match e {
             Expr::Paren(p) => self.res_expr(&p.expr, binds),
+            Expr::MethodCall(m) if m.method == "map_err" && m.args.len() == 1 && matches!(&m.args[0], Expr::Closure(_)) && self.is_fallible(&m.receiver) => {
+                // r.map_err(|_| E): the error value is replaced (the closure must not use its argument)
+                let c = match &m.args[0] { Expr::Closure(c) => c, _ => unreachable!() };
+                if !(c.inputs.len() == 1 && matches!(&c.inputs[0], Pat::Wild(_))) {
+                    return Err(format!("map_err with a closure that uses its argument: {}", text));
+                }
+                let body = match &*c.body {
+                    Expr::Block(b) if b.block.stmts.len() == 1 => match &b.block.stmts[0] {
+                        Stmt::Expr(x, None) => x.clone(),
+                        _ => return Err(format!("map_err closure body: {}", text)),
+                    },
+                    other => other.clone(),
+                };
+                let inner = self.res_expr(&m.receiver, binds)?;
+                let mut eb = Vec::new();
+                let ev = self.error_value(&body, &mut eb)?;
+                if !eb.is_empty() {
+                    return Err(format!("partial expression in a map_err closure: {}", text));
+                }
+                Ok(format!("omap_err (fun _ => {}) ({})", ev, inner))
+            }
             Expr::MethodCall(m) => {
                 let key = format!("{}/{}", m.method, m.args.len());
                 if let Some((tmpl, _, true)) = self.t.method.get(&key).cloned() {
+                    let ty = self.expect_ty.take();
                     let mut args = vec![self.expr(&m.receiver, binds)?.0];
                     for a in &m.args {
                         args.push(self.expr(a, binds)?.0);
                     }
-                    return Ok(Self::subst(&tmpl, &args));
+                    let r = self.subst_t(&tmpl, &args, &ty);
+                    self.expect_ty = ty;
+                    return r;
                 }
                 if toks(&m.receiver) == "self" && !self.t.method.contains_key(&key) {
                     if let Some((body, _, mode)) = self.try_inline(&m.method.to_string(), true, true, m.args.iter().collect(), binds)? {
@@ -595,11 +759,14 @@ impl<'a> Tr<'a> {
             Expr::Call(c) => {
                 let key = format!("{}/{}", toks(&c.func), c.args.len());
                 if let Some((tmpl, _, true)) = self.t.call.get(&key).cloned() {
+                    let ty = self.expect_ty.take();
                     let mut args = vec![String::new()];
                     for a in &c.args {
                         args.push(self.expr(a, binds)?.0);
                     }
-                    return Ok(Self::subst(&tmpl, &args));
+                    let r = self.subst_t(&tmpl, &args, &ty);
+                    self.expect_ty = ty;
+                    return r;
                 }
                 if !self.t.call.contains_key(&key) {
                     if let Some((name, in_impl)) = self.helper_of_call(&c.func) {
@@ -659,6 +826,10 @@ impl<'a> Tr<'a> {
                 let r = self.res_expr(e, binds)?;
                 return Ok(r);
             }
+            Expr::MethodCall(_) if mode == "result" && self.is_fallible(e) => {
+                let r = self.res_expr(e, binds)?;
+                return Ok(r);
+            }
             Expr::Call(c) if mode == "option" => {
                 let f = toks(&c.func);
                 if f == "Some" && c.args.len() == 1 {
@@ -712,7 +883,8 @@ impl<'a> Tr<'a> {
                 }
                 Ok(format!("({} {})", ctor, args.join(" ")))
             }
-            _ => Err(format!("error value {}", toks(e))),
+            // any other expression (a formatted message): by its text, from the table
+            other => self.t.ctor.get(&toks(other)).cloned().ok_or(format!("error value {}", toks(e))),
         }
     }
 
@@ -1232,8 +1404,44 @@ impl<'a> Tr<'a> {
                     },
                     _ => return Err(format!("let pattern {}", toks(&l.pat))),
                 };
+                if let Some(pi) = self.t.places.iter().position(|p| p.0 == toks(&*init.expr)) {
+                    // let x = <place expression>;  x is another name of that place
+                    self.place_alias.insert(name.clone(), pi);
+                    return self.seq(rest, k);
+                }
                 let mut binds = Vec::new();
-                let (v, kind) = self.expr(&init.expr, &mut binds)?;
+                if let Expr::Struct(st) = &*init.expr {
+                    if self.t.explode.contains(&toks(&st.path)) {
+                        // let x = S { f: e, .. } of an exploded type: one variable x.f per field
+                        let mut out_binds = Vec::new();
+                        let mut fields = Vec::new();
+                        let mut vals = Vec::new();
+                        for f in &st.fields {
+                            let fname = toks(&f.member);
+                            self.expect_ty = self.field_types.get(&fname).cloned();
+                            let r = self.expr(&f.expr, &mut binds);
+                            self.expect_ty = None;
+                            let (v, kind) = r?;
+                            vals.push((format!("{}.{}", name, fname), v, kind));
+                            fields.push(fname);
+                        }
+                        for (var, v, kind) in vals {
+                            let c = self.bind(&var, kind);
+                            out_binds.push((c, v));
+                        }
+                        self.exploded.insert(name.clone(), (toks(&st.path), fields));
+                        let restc = self.seq(rest, k)?;
+                        let mut out = restc;
+                        for (c, v) in out_binds.into_iter().rev() {
+                            out = format!("let {} := {} in\n{}", c, v, out);
+                        }
+                        return Ok(Self::wrap_binds(binds, out));
+                    }
+                }
+                self.expect_ty = match &l.pat { Pat::Type(t) => Some(toks(&t.ty)), _ => None };
+                let r = self.expr(&init.expr, &mut binds);
+                self.expect_ty = None;
+                let (v, kind) = r?;
                 let kind = self.t.kinds.get(&name).cloned().unwrap_or(kind);
                 let c = self.bind(&name, kind);
                 let restc = self.seq(rest, k)?;
@@ -1265,7 +1473,7 @@ impl<'a> Tr<'a> {
     fn arm_needs_block(&self, body: &Expr) -> bool {
         match body {
             Expr::Block(_) => true,
-            Expr::MethodCall(m) if (m.method == "unwrap" || m.method == "expect") && self.is_fallible(&m.receiver) => true,
+            Expr::MethodCall(m) if is_unwrap(m) && self.is_fallible(&m.receiver) => true,
             other => self.is_fallible(other),
         }
     }
@@ -1327,7 +1535,7 @@ impl<'a> Tr<'a> {
         }
         // x.m(args).unwrap();  with m a fallible mutating method of the table
         if let Expr::MethodCall(u) = e {
-            if (u.method == "unwrap" || u.method == "expect") && u.args.len() <= 1 {
+            if is_unwrap(u) && u.args.len() <= 1 {
                 if let Expr::MethodCall(m) = &*u.receiver {
                     let key = format!("{}/{}", m.method, m.args.len());
                     if let Some(tmpl) = self.t.pmutmethod.get(&key).cloned() {
@@ -1341,7 +1549,7 @@ impl<'a> Tr<'a> {
                         let v = Self::subst(&tmpl, &args);
                         let c = self.rebind(&recv)?;
                         let restc = self.seq(rest, k)?;
-                        return Ok(Self::wrap_binds(binds, format!("obind (unwrap_p {} ({})) (fun {} =>\n{})", self.t.panic_site, v, c, restc)));
+                        return Ok(Self::wrap_binds(binds, format!("obind ({} {} ({})) (fun {} =>\n{})", self.t.unwrap_fn, self.t.panic_site, v, c, restc)));
                     }
                 }
             }
@@ -1411,10 +1619,32 @@ impl<'a> Tr<'a> {
                 None if self.mode() == "mutself" => self.retvars_value(),
                 None => Ok(self.in_loop("Ok tt".to_string())),
             },
+            Expr::Assign(a) if self.place_of(&a.left).is_some() => {
+                let (pi, member) = self.place_of(&a.left).unwrap();
+                let mut binds = Vec::new();
+                let (v, _) = self.expr(&a.right, &mut binds)?;
+                let out = self.place_update(pi, &member, |_cur| v.clone(), rest, k)?;
+                Ok(Self::wrap_binds(binds, out))
+            }
+            Expr::Binary(b) if is_assign_op(&b.op) && self.place_of(&b.left).is_some() => {
+                let (pi, member) = self.place_of(&b.left).unwrap();
+                let mut binds = Vec::new();
+                let (v, _) = self.expr(&b.right, &mut binds)?;
+                let op = match b.op {
+                    BinOp::AddAssign(_) => "+",
+                    BinOp::MulAssign(_) => "*",
+                    _ => return Err(format!("compound assignment to a place: {}", toks(e))),
+                };
+                let out = self.place_update(pi, &member, |cur| format!("({} {} {})", cur, op, v), rest, k)?;
+                Ok(Self::wrap_binds(binds, out))
+            }
             Expr::Assign(a) => {
                 let name = toks(&a.left);
                 let mut binds = Vec::new();
-                let (v, _) = self.expr(&a.right, &mut binds)?;
+                self.expect_ty = match &*a.left { Expr::Field(f) => self.field_types.get(&toks(&f.member)).cloned(), _ => None };
+                let r = self.expr(&a.right, &mut binds);
+                self.expect_ty = None;
+                let (v, _) = r?;
                 let c = self.rebind(&name)?;
                 let restc = self.seq(rest, k)?;
                 Ok(Self::wrap_binds(binds, format!("let {} := {} in\n{}", c, v, restc)))
@@ -1487,7 +1717,7 @@ impl<'a> Tr<'a> {
                 let restc = self.seq(rest, k)?;
                 Ok(Self::wrap_binds(
                     binds,
-                    format!("obind (fold_res (fun {} {} =>\n{}) {} {}) (fun {} =>\n{})", pat(&params), xv, body, it, tuple(&init), pat(&outs), restc),
+                    format!("obind ({} (fun {} {} =>\n{}) {} {}) (fun {} =>\n{})", if self.t.restype.is_some() { "fold_out" } else { "fold_res" }, pat(&params), xv, body, it, tuple(&init), pat(&outs), restc),
                 ))
             }
             Expr::ForLoop(f) if self.loop_depth == 0 && self.loop_sr.is_empty() && {
@@ -1703,12 +1933,12 @@ impl<'a> Tr<'a> {
                     let restc = self.seq(rest, k)?;
                     return Ok(Self::wrap_binds(binds, format!("obind ({}) (fun {} =>\n{})", v, c, restc)));
                 }
-                if (m.method == "unwrap" || m.method == "expect") && self.is_fallible(&m.receiver) && (!rest.is_empty() || !self.tail_position(k)) {
+                if is_unwrap(m) && self.is_fallible(&m.receiver) && (!rest.is_empty() || !self.tail_position(k)) {
                     // f(x).unwrap();  — the value is dropped, an error is a panic
                     let mut binds = Vec::new();
                     let r = self.res_expr(&m.receiver, &mut binds)?;
                     let restc = self.seq(rest, k)?;
-                    return Ok(Self::wrap_binds(binds, format!("obind (unwrap_p {} ({})) (fun _ =>\n{})", self.t.panic_site, r, restc)));
+                    return Ok(Self::wrap_binds(binds, format!("obind ({} {} ({})) (fun _ =>\n{})", self.t.unwrap_fn, self.t.panic_site, r, restc)));
                 }
                 if self.is_fallible(e) && (!rest.is_empty() || !self.tail_position(k)) {
                     // self.validate_x();  — may panic, value dropped
@@ -1736,6 +1966,8 @@ impl<'a> Tr<'a> {
 
     fn tail_expr(&mut self, e: &Expr, rest: &[Stmt], k: &K) -> R<String> {
         match e {
+            // `()` as a statement or as the value of a unit arm (`Ok(_) => (),`): nothing happens
+            Expr::Tuple(t) if t.elems.is_empty() && !(rest.is_empty() && matches!(k, K::End | K::Val | K::ValJoin(_))) => self.seq(rest, k),
             _ => {
                 // tail expression of the function body (or of a block in tail position)
                 if rest.is_empty() && matches!(k, K::End) {
@@ -1897,6 +2129,9 @@ impl<'a> Tr<'a> {
                 let c = self.fresh("c");
                 let then = self.block(&i.then_branch, rest, k)?;
                 let els = else_code(self)?;
+                if let Some(rt) = term.strip_prefix("RES:") {
+                    return Ok(format!("obind ({}) (fun '({}, {}) =>\nif {} then\n{}\nelse\n{})", rt, c, Self::tuple_of(&names), c, then, els));
+                }
                 return Ok(format!("let '({}, {}) := {} in\nif {} then\n{}\nelse\n{}", c, Self::tuple_of(&names), term, c, then, els));
             }
         }
@@ -1956,19 +2191,24 @@ impl<'a> Tr<'a> {
                 scrut_override = Some(sc);
             }
         }
-        let (scrut, _) = match scrut_override {
+        let (scrut, skind) = match scrut_override {
             Some(sc) => (sc, Kind::Other),
             None => self.expr(&m.expr, &mut binds)?,
         };
-        let numeric = m.arms.iter().all(|a| a.guard.is_none() && matches!(&a.pat, Pat::Lit(_) | Pat::Range(_) | Pat::Wild(_)))
-            && m.arms.iter().any(|a| matches!(&a.pat, Pat::Lit(_) | Pat::Range(_)));
+        let numeric = m.arms.iter().all(|a| (a.guard.is_none() && matches!(&a.pat, Pat::Lit(_) | Pat::Range(_) | Pat::Wild(_))) || matches!(&a.pat, Pat::Ident(_)))
+            && m.arms.iter().any(|a| matches!(&a.pat, Pat::Lit(_) | Pat::Range(_)))
+            && m.arms.iter().all(|a| match &a.pat { Pat::Ident(i) => i.subpat.is_none() && !self.t.ctor.contains_key(&i.ident.to_string()), _ => true });
         if numeric {
             // match n { 0 => .., 1 => .., 2..=1024 => .., _ => .. }  as a chain of comparisons, in arm order
             let mut conds = Vec::new();
             let mut bodies = Vec::new();
             for a in &m.arms {
                 let c = match &a.pat {
-                    Pat::Lit(l) => Some(format!("({} =? {})", scrut, toks(l))),
+                    Pat::Lit(l) => match &l.lit {
+                        // a string pattern: comparison of the bytes
+                        Lit::Str(st) => Some(format!("(bytes_eqb {} {})", scrut, byte_list(st.value().as_bytes()))),
+                        _ => Some(format!("({} =? {})", scrut, toks(l))),
+                    },
                     Pat::Range(r) => {
                         let mut parts = Vec::new();
                         if let Some(lo) = &r.start {
@@ -1985,6 +2225,24 @@ impl<'a> Tr<'a> {
                     _ => None,
                 };
                 let saved = self.env.clone();
+                let mut c = c;
+                if let Pat::Ident(i) = &a.pat {
+                    // an arm that names the value: catch-all, or `s if cond(s)`
+                    self.env.push(HashMap::new());
+                    self.env.last_mut().unwrap().insert(i.ident.to_string(), (scrut.clone(), skind));
+                    if let Some((_, g)) = &a.guard {
+                        let mut gb = Vec::new();
+                        let gc = self.expr(g, &mut gb);
+                        if !gb.is_empty() {
+                            self.env = saved;
+                            return Err("partial expression in a match guard".into());
+                        }
+                        match gc {
+                            Ok((gc, _)) => c = Some(gc),
+                            Err(e) => { self.env = saved; return Err(e); }
+                        }
+                    }
+                }
                 let body = self.arm_body(&a.body, rest, k);
                 self.env = saved;
                 conds.push(c);
@@ -2016,13 +2274,26 @@ impl<'a> Tr<'a> {
                 fallback = Some(a);
             }
         }
+        // the pattern of an arm without its `ref` / `mut` binding modes
+        let pat_key = |p: &Pat| -> String {
+            norm(&format!(" {} ", p.to_token_stream()).replace("(", " ( ").replace(" ref ", " ").replace(" mut ", " "))
+        };
+        let mut consumed: Vec<usize> = Vec::new();
         let mut out = format!("match {} with\n", scrut);
-        for a in &m.arms {
+        for (ai, a) in m.arms.iter().enumerate() {
+            if consumed.contains(&ai) {
+                continue; // already emitted as the else-branch of the guarded arm with the same pattern
+            }
             let saved = self.env.clone();
             self.env.push(HashMap::new());
             let pat = self.pattern(&a.pat)?;
             let body = if let Some((_, g)) = &a.guard {
-                let fb = fallback.ok_or("a guarded arm needs a catch-all `_` arm")?;
+                // where a failed guard goes: a later unguarded arm with the same pattern, else the `_` arm
+                let same = m.arms.iter().enumerate().skip(ai + 1).find(|(_, b)| b.guard.is_none() && pat_key(&b.pat) == pat_key(&a.pat));
+                if let Some((bi, _)) = same {
+                    consumed.push(bi);
+                }
+                let fb = same.map(|(_, b)| b).or(fallback).ok_or("a guarded arm needs a later arm with the same pattern or a catch-all `_` arm")?;
                 let mut gb = Vec::new();
                 let (gc, _) = self.expr(g, &mut gb)?;
                 if !gb.is_empty() {
@@ -2222,7 +2493,7 @@ fn parse_targets(text: &str) -> (String, Vec<Target>) {
             continue;
         }
         if l == "[target]" {
-            out.push(Target { panic_site: "0%nat".into(), retmode: "value".into(), ..Default::default() });
+            out.push(Target { panic_site: "0%nat".into(), retmode: "value".into(), unwrap_fn: "unwrap_p".into(), ..Default::default() });
             continue;
         }
         let t = out.last_mut().expect("directive before [target]");
@@ -2310,6 +2581,24 @@ fn parse_targets(text: &str) -> (String, Vec<Target>) {
             "retstate" => t.retstate = rest.split_whitespace().map(|s| s.to_string()).collect(),
             "retvars" => t.retvars = rest.split_whitespace().map(|s| s.to_string()).collect(),
             "recfuel" => t.recfuel = Some(rest.to_string()),
+            "unwrapfn" => t.unwrap_fn = rest.to_string(),
+            "place" => {
+                // place <expression> => <variable> ;; <getter term> ;; <setter term with $v>
+                let (a, b) = arrow(rest);
+                let parts: Vec<&str> = b.split(";;").collect();
+                if parts.len() != 3 { panic!("place needs var ;; getter ;; setter"); }
+                t.places.push((norm(&a), parts[0].trim().to_string(), parts[1].trim().to_string(), parts[2].trim().to_string()));
+            }
+            "fldset" => {
+                let (a, b) = arrow(rest);
+                t.fldset.insert(a, b);
+            }
+            "pcondeff" => {
+                let (a, b) = arrow(rest);
+                let (vs, term) = b.split_once(":=").expect("needs vars := term");
+                t.condeff.push((norm(&a), vs.split(',').map(|v| v.trim().to_string()).collect(), format!("RES:{}", term.trim())));
+            }
+            "explode" => t.explode.push(norm(rest)),
             "skip" => t.skip_macros = rest.split_whitespace().map(|s| s.to_string()).collect(),
             "param" => {
                 // param <rust> <coq> <kind> : <coq type>
@@ -2557,7 +2846,7 @@ fn translate_target(repo: &str, t0: &Target) -> Result<String, String> {
     }
     module_consts(&file, &mut t);
     local_consts(block, &mut t);
-    let mut tr = Tr { t: &t, fresh: 0, env: vec![HashMap::new()], loop_depth: 0, loop_sr: Vec::new(), loop_brk: Vec::new(), file: Some(&file), self_ty: t.func.split_once("::").map(|x| x.0.to_string()), mode_override: Vec::new(), inline_depth: 0 };
+    let mut tr = Tr { t: &t, fresh: 0, env: vec![HashMap::new()], loop_depth: 0, loop_sr: Vec::new(), loop_brk: Vec::new(), file: Some(&file), self_ty: t.func.split_once("::").map(|x| x.0.to_string()), mode_override: Vec::new(), inline_depth: 0, expect_ty: None, place_alias: HashMap::new(), exploded: HashMap::new(), field_types: struct_field_types(&file) };
     let kw = if t.recfuel.is_some() { "Fixpoint" } else { "Definition" };
     let mut header = format!("{} {}", kw, t.coq);
     if t.recfuel.is_some() {
